@@ -186,3 +186,108 @@ def gen_multi(rng):
     cmds += [("st",), ("rs", 0)]
     case["cmds"] = cmds
     return case
+
+
+def gen_req(rng):
+    """Malformed-input stream for scheduling requests: past / present / future deadlines, absolute and
+    relative, zero and non-zero periods, every request kind, from the driver and from handlers."""
+    periods = [None, None, 0, 10, 20]
+    def sched_op():
+        return ("sch", rng.choice([("r", rng.choice([0, 0, 1, 3])), ("a", rng.choice([0, 5, 15, 25, 1000]))]), 0,
+                ("ip", 100), rng.choice([None, None, 0, 1]), rng.choice(periods))
+    hs = [[], [sched_op() for _ in range(rng.randint(1, 3))], [sched_op()], []]
+    case = {"models": [{"cap": 16, "handlers": hs, "outs": []}], "sinks": [], "mode": "seq",
+            "tags": {"requests"}, "t0": rng.choice([0, 10]), "clock": [],
+            "sources": [[("all", 0, ("m", 0, 0))], [("even", 1, ("m", 0, 3)), ("all", 0, ("m", 0, 0))]]}
+    cmds, val, horizon = [], 0, case["t0"]
+    for _ in range(rng.randint(4, 12)):
+        r = rng.random()
+        val += 1
+        d = rng.choice([("a", horizon + 10 * rng.randint(-2, 3)), ("r", rng.choice([0, 0, 10, 20]))])
+        if d[0] == "a" and d[1] < 0:
+            d = ("a", 0)
+        if r < 0.4:
+            cmds.append(("se", d, 0, rng.choice([0, 1, 2, 3]), val, rng.choice([None, None, 0, 1]), rng.choice(periods)))
+        elif r < 0.6:
+            cmds.append(("ss", d, rng.randrange(2), val, rng.choice([None, None, 2, 3]), rng.choice(periods)))
+        elif r < 0.7:
+            cmds.append(("cn", rng.randrange(4)))
+        elif r < 0.85:
+            cmds.append(("st",))
+            horizon += 10
+        else:
+            tgt = horizon + rng.choice([0, 10, 20, 30])
+            cmds.append(("su", ("a", tgt)))
+            horizon = tgt
+    cmds.append(("st",))
+    case["cmds"] = cmds
+    # handler-scheduled events (origin: the model) may coincide with driver events (origin: scheduler):
+    # two tasks deliver to one mailbox, so the order inside such a step is schedule-dependent
+    case["mode"] = "multiset"
+    return case
+
+
+FAULTS = ["panic", "norecip_model", "norecip_src", "oos", "loss", "dead_query", "invdl", "badq", "sched_err"]
+
+
+def gen_fault(rng, fault=None, tail=None):
+    """Fault-sequence family (C11): one fault of a given kind injected at some point of a short driver
+    sequence, followed by a tail of further API calls."""
+    fault = fault or rng.choice(FAULTS)
+    # model 0: victim/actor; model 1: dropped or orphan target
+    m0 = {"cap": 4, "handlers": [[], [("pan", 7)], [("snd", 0, "in")], [("qry", 0, "in")]],
+          "repliers": [([("qry", 0, "in")], 1), ([], 2)],
+          "outs": [[("all", 0, ("m", 1, 0))]], "reqs": [[("all", 0, 0, 0, 0)]]}
+    place1 = {"norecip_model": 2, "norecip_src": 2, "loss": 1, "badq": 2}.get(fault, 0)
+    m1 = {"cap": 4, "place": place1, "handlers": [[]], "repliers": [([], 5)]}
+    case = {"models": [m0, m1], "sinks": [], "mode": "multiset", "tags": {"fault", fault}, "t0": 0,
+            "sources": [[("all", 0, ("m", 1, 0))], [("all", 0, ("m", 0, 0))]], "clock": []}
+    pre = []
+    if rng.random() < 0.6:
+        pre.append(("se", ("a", 10), 0, 0, 1, None, None))
+        pre.append(("st",))
+    pending = rng.random() < 0.6
+    if pending:
+        pre.append(("se", ("a", 100), 0, 0, 2, None, rng.choice([None, 10])))
+    now = 10 if ("st",) in pre else 0
+    if fault == "panic":
+        inj = [("pe", 0, 1, 3)] if rng.random() < 0.5 else [("se", ("a", now + 10), 0, 1, 3, None, None), ("st",)]
+    elif fault == "norecip_model":
+        inj = [("pe", 0, 2, 3)]
+    elif fault == "norecip_src":
+        inj = [("ps", 0, 3)] if rng.random() < 0.5 else [("ss", ("a", now + 10), 0, 3, None, None), ("st",)]
+    elif fault == "oos":
+        case["tol"] = 5
+        k = 1 + sum(1 for c in pre if c[0] == "st")
+        case["clock"] = [None] * k + [50]
+        inj = [("se", ("a", now + 10), 0, 0, 3, None, None), rng.choice([("st",), ("su", ("a", now + 10)), ("su", ("a", now + 20))])]
+    elif fault == "loss":
+        inj = [("pe", 1, 0, 3)] if rng.random() < 0.5 else [("pq", 1, 0, 3)]
+    elif fault == "dead_query":
+        inj = [("pe", 0, 3, 3)] if rng.random() < 0.5 else [("pq", 0, 0, 3)]
+    elif fault == "invdl":
+        inj = [("su", ("a", max(0, now - 5)))] if now > 0 else [("se", ("a", 10), 0, 0, 9, None, None), ("st",), ("su", ("a", 5))]
+    elif fault == "badq":
+        inj = [("pq", 1, 0, 3)]
+    else:
+        inj = [("se", ("a", 0), 0, 0, 3, None, None), ("se", ("r", 5), 0, 0, 4, None, 0)]
+    if tail is None:
+        calls = [("st",), ("su", ("r", 10)), ("su", ("a", 500)), ("pe", 0, 0, 11), ("pq", 0, 1, 12), ("ps", 1, 13),
+                 ("su", ("a", 0))]
+        tail = [rng.choice(calls) for _ in range(rng.randint(1, 3))]
+    case["cmds"] = pre + inj + list(tail)
+    return case
+
+
+def enum_faults():
+    """The complete fault x tail space of the thorough tier: every fault kind followed by every
+    sequence of <= 2 further calls (and every single call after every fault with pending/empty queue)."""
+    calls = [("st",), ("su", ("r", 10)), ("pe", 0, 0, 11), ("pq", 0, 1, 12), ("ps", 1, 13)]
+    import itertools
+    out = []
+    for f in FAULTS:
+        for n in (1, 2):
+            for tail in itertools.product(calls, repeat=n):
+                for seed in (1, 2, 3):
+                    out.append(gen_fault(random.Random(seed * 7919 + hash(f) % 1000), f, tail))
+    return out
